@@ -9,9 +9,13 @@ byte = st.integers(0, 255)
 optuple = st.tuples(byte, byte, byte, byte)
 
 
-def recipe_strategy(max_threads=4, max_ops=40, max_bodies=6, body_len=5, header=16):
+def recipe_strategy(max_threads=4, max_ops=40, max_bodies=6, body_len=5, header=16, min_ops=None, min_threads=1):
+    # Hypothesis draws list lengths around min(max(2*min, min+5), (min+max)/2): without a floor the average thread would
+    # have ~5 ops, too short for multi-step races; the floor keeps generated programs long (shrunk ones keep >= min_ops ops)
+    if min_ops is None:
+        min_ops = max(1, max_ops // 4)
     return st.tuples(st.lists(byte, min_size=header, max_size=header),
-                     st.lists(st.lists(optuple, max_size=max_ops), min_size=1, max_size=max_threads),
+                     st.lists(st.lists(optuple, min_size=min_ops, max_size=max_ops), min_size=min_threads, max_size=max_threads),
                      st.lists(st.lists(optuple, max_size=body_len), max_size=max_bodies))
 
 
@@ -50,10 +54,10 @@ SYNC_TO_ASYNC = {"sync": "async", "bsync": "basync", "aaw": "async", "baaw": "ba
 
 
 class Env:
-    __slots__ = ("ctx", "rank", "depth", "thread", "pending", "in_item", "onq")
+    __slots__ = ("ctx", "rank", "depth", "thread", "pending", "in_item", "onq", "item_kind")
 
-    def __init__(self, ctx, rank, depth, thread, in_item, onq=-1):
-        self.ctx, self.rank, self.depth, self.thread, self.in_item, self.onq = ctx, rank, depth, thread, in_item, onq
+    def __init__(self, ctx, rank, depth, thread, in_item, onq=-1, item_kind=None):
+        self.ctx, self.rank, self.depth, self.thread, self.in_item, self.onq, self.item_kind = ctx, rank, depth, thread, in_item, onq, item_kind
         self.pending = []
 
 
@@ -142,19 +146,49 @@ class QGrammar:
                 return None
             q = qs[a % len(qs)]
             t = P.tok()
-            o = P.op(env.ctx, "suspend", a=q, b=t, q=q, thread=env.thread, in_item=env.in_item, onq=env.onq)
-            P.open_tokens.append((t, q, "resume"))
+            o = P.op(env.ctx, "suspend", a=q, b=t, q=q, thread=env.thread, in_item=env.in_item, onq=env.onq, item_kind=env.item_kind)
+            P.open_tokens.append((t, q, "resume", 1))
             # optionally resume right away / after a little work from the same context (a tight suspend-resume pair)
             if b % 3 == 0:
                 if b % 2:
                     P.op(env.ctx, "work", a=(c % 8) * 20)
-                P.op(env.ctx, "resume", a=q, b=t, q=q, thread=env.thread)
+                P.op(env.ctx, "resume", a=q, b=t, c=1, q=q, thread=env.thread)
+            return o
+        if kind == "self_suspend":
+            # dispatch_suspend from an item running on the serial queue itself (or from a barrier item on a concurrent queue)
+            q = env.onq
+            if not env.in_item or q < 0 or P.queues[q]["kind"] not in (0, 1) or len(P.open_tokens) >= 48:
+                return None
+            if P.queues[q]["kind"] == 1 and env.item_kind not in e3.BARRIER_KINDS:
+                return None
+            t = P.tok()
+            o = P.op(env.ctx, "suspend", a=q, b=t, q=q, thread=env.thread, in_item=True, onq=env.onq, item_kind=env.item_kind)
+            P.open_tokens.append((t, q, "resume", 1))
+            P.features.add("self-suspend")
+            if b % 4 == 0:
+                P.op(env.ctx, "work", a=(c % 8) * 20, b=1)
+                P.op(env.ctx, "resume", a=q, b=t, c=1, q=q, thread=env.thread)
+            return o
+        if kind == "suspendn":
+            qs = self.suspendable(P, env)
+            if not qs or env.in_item or P.next_tok > 1500:
+                return None
+            q = qs[a % len(qs)]
+            n = [2, 3, 10, 63, 64, 65, 100, 200][b % 8]
+            t0 = P.next_tok
+            P.next_tok += n
+            o = P.op(env.ctx, "suspend", a=q, b=t0, c=n, q=q, thread=env.thread, in_item=False, onq=-1, item_kind=None, n=n)
+            P.open_tokens.append((t0, q, "resume", n))
+            P.features.add("nested-suspend>64" if n > 64 else "nested-suspend")
+            if c % 3 == 0:      # split resume: part now, the rest later (crosses the side-count transfer in both directions)
+                k = 1 + (c >> 2) % (n - 1)
+                P.op(env.ctx, "resume", a=q, b=t0, c=k, q=q, thread=env.thread)
             return o
         if kind == "resume":
             if not P.open_tokens:
                 return None
-            t, q, k = P.open_tokens[a % len(P.open_tokens)]
-            return P.op(env.ctx, k, a=q, b=t, q=q, thread=env.thread)
+            t, q, k, n = P.open_tokens[a % len(P.open_tokens)]
+            return P.op(env.ctx, k, a=q, b=t, c=n, q=q, thread=env.thread)
         return None
 
     def emit_submit(self, P, kind, q, b, c, bodies, env, group=0):
@@ -170,7 +204,7 @@ class QGrammar:
             # an item may later await this child: what the child's body may synchronously enter must respect the
             # rank its (possibly waiting) parent holds, so a child sent to a global queue inherits the parent's rank
             nrank = (env.rank if env.in_item else -1) if P.queues[q]["kind"] == 2 else r
-        benv = Env(bctx, nrank, env.depth + 1, env.thread, True, onq=q)
+        benv = Env(bctx, nrank, env.depth + 1, env.thread, True, onq=q, item_kind=kind)
         P.op(bctx, "work", a=(c % 8) * 30, b=1 if (c >> 3) % 4 == 0 else 0)
         if bodies and env.depth < self.max_depth and (b >> 1) % 3 != 0:
             self.compile_ops(P, bodies[(b >> 3) % len(bodies)], bodies, benv, self.body_kinds)
@@ -189,9 +223,16 @@ class QGrammar:
         self.build_graph(P, h)
         P.nthreads = len(threads)
         self.prologue(P, h)
+        # swarm testing: each case enables a random subset of the op kinds (mask = last two header bytes; 0 = everything),
+        # so some cases are pure ping-pong, others sync-heavy, others made of one or two templates only
+        mask = h[-1] | (h[-2] << 8)
+        table = [kw for i, kw in enumerate(self.thread_kinds) if not mask or (mask >> (i % 16)) & 1]
+        if len(table) < 2:
+            table = self.thread_kinds
+        P.features.add("swarm=%d/%d" % (len(table), len(self.thread_kinds)))
         for t, ops in enumerate(threads):
             env = Env(t, -1, 0, t, False)
-            self.compile_ops(P, ops, bodies, env, self.thread_kinds)
+            self.compile_ops(P, ops, bodies, env, table)
             self.thread_epilogue(P, env, h)
         return P
 
@@ -552,3 +593,282 @@ def barrier_classes(prog, hist, q):
         depth += d
         mx = max(mx, depth)
     return bar_while_reader, reader_while_bar, mx
+
+
+# ---------------------------------------------------------------- groups, semaphores, once (C05, C07, C08, C09)
+TIMEOUTS_NS = [20000, 50000, 100000, 200000, 500000, 1000000, 2000000, 3000000]
+TKINDS = [0, 1, 2, 2, 3, 4, 5, 2]      # forever, now, uptime-relative, wall (dispatch_walltime), monotonic, wall (WALLTIME_NOW)
+
+
+class SyncOps:
+    """emitters for group / semaphore / once operations; mixed into a QGrammar"""
+    nsems = 2
+    ngroups = 2
+    nonce = 16
+
+    def init_sync(self, P, h, ngroups=None, nsems=None, nonce=None):
+        P.nsems = self.nsems if nsems is None else nsems
+        P.ngroups = self.ngroups if ngroups is None else ngroups
+        P.nonce = self.nonce if nonce is None else nonce
+        P.sems = {i: [0, 1, 2, 3][(h[3] >> (2 * i)) % 4] for i in range(P.nsems)}
+        P.groups = list(range(P.ngroups))
+        P.open_gtokens = []
+
+    def emit_sync_op(self, P, kind, a, b, c, bodies, env):
+        if kind == "swait":
+            s = a % P.nsems
+            tk = TKINDS[b % 8]
+            o = P.op(env.ctx, "swait", a=s, c=tk, d=TIMEOUTS_NS[c % 8] if tk >= 2 else 0, thread=env.thread, sem=s)
+            return o
+        if kind == "ssignal":
+            return P.op(env.ctx, "ssignal", a=a % P.nsems, thread=env.thread, sem=a % P.nsems)
+        if kind == "genter":
+            if len(P.open_gtokens) >= 64:
+                return None
+            g = a % P.ngroups
+            t = P.tok()
+            P.open_gtokens.append((t, g))
+            o = P.op(env.ctx, "genter", a=g, b=t, thread=env.thread, group=g)
+            if b % 4 == 0:      # tight enter/leave pair
+                P.op(env.ctx, "gleave", a=g, b=t, thread=env.thread, group=g)
+            return o
+        if kind == "gleave":
+            if not P.open_gtokens:
+                return None
+            t, g = P.open_gtokens[a % len(P.open_gtokens)]
+            return P.op(env.ctx, "gleave", a=g, b=t, thread=env.thread, group=g)
+        if kind == "enter_wait":
+            # a fresh enter immediately followed by a blocking wait: the shape that races with a zero-reaching leave of the previous generation
+            if len(P.open_gtokens) >= 64 or env.in_item:
+                return None
+            g = a % P.ngroups
+            t = P.tok()
+            P.open_gtokens.append((t, g))
+            o = P.op(env.ctx, "genter", a=g, b=t, thread=env.thread, group=g)
+            tk = [0, 0, 2, 0][b % 4]
+            P.op(env.ctx, "gwait", a=g, c=tk, d=TIMEOUTS_NS[4 + c % 4] if tk >= 2 else 0, thread=env.thread, group=g)
+            return o
+        if kind == "enter_notify_leave":
+            # one generation in a row: enter, register a notification (so the state word carries a bit), leave to zero
+            if len(P.open_gtokens) >= 64 or env.in_item:
+                return None
+            g = a % P.ngroups
+            t = P.tok()
+            o = P.op(env.ctx, "genter", a=g, b=t, thread=env.thread, group=g)
+            if b % 4:
+                tg = self.targets(P, env)
+                n = P.op(env.ctx, "gnotify", a=tg[b % len(tg)], b=c & 1, c=g, thread=env.thread, group=g, q=tg[b % len(tg)])
+                P.op(P.body(n), "work", a=(c % 8) * 20)
+            if c % 3 == 0:
+                P.op(env.ctx, "work", a=(c % 16) * 10)
+            P.op(env.ctx, "gleave", a=g, b=t, thread=env.thread, group=g)
+            return o
+        if kind == "gwait":
+            g = a % P.ngroups
+            tk = TKINDS[b % 8] if b % 3 else 0
+            if env.in_item and tk == 0:
+                tk = 2          # items do not block forever on a group (keeps the blocked-worker count bounded)
+            return P.op(env.ctx, "gwait", a=g, c=tk, d=TIMEOUTS_NS[c % 8] if tk >= 2 else 0, thread=env.thread, group=g)
+        if kind == "gnotify":
+            g = a % P.ngroups
+            tg = self.targets(P, env)
+            q = tg[b % len(tg)]
+            o = P.op(env.ctx, "gnotify", a=q, b=c & 1, c=g, thread=env.thread, group=g, q=q)
+            P.op(P.body(o), "work", a=(c % 8) * 20)
+            return o
+        if kind == "once":
+            p = a % P.nonce
+            o = P.op(env.ctx, "once", a=p, b=b & 1, thread=env.thread, pred=p)
+            P.op(P.body(o), "work", a=(c % 16) * 60 + 20, b=1 if c % 3 else 0)
+            if c % 5 == 0:
+                P.op(P.body(o), "work", a=300, b=1)
+            return o
+        return None
+
+    def emit_gasync(self, P, a, b, c, bodies, env):
+        tg = self.targets(P, env)
+        q = tg[a % len(tg)]
+        g = (b >> 1) % P.ngroups
+        kind = self.adapt_kind(P, "gasync", q, env)
+        o = QGrammar.emit_submit(self, P, kind, q, b, c, bodies, env, group=g)
+        o.meta["group"] = g
+        return o
+
+
+def timeout_verdicts(prog, hist, kinds=("gwait", "swait", "bwait")):
+    """S3: a timed wait may return non-zero only after its full timeout has elapsed on the clock the deadline was expressed in;
+    elapsed is measured from a clock read taken BEFORE the deadline was computed to one taken AFTER the call returned"""
+    out = []
+    ev = hist.ev
+    rets = {}
+    for i in hist.of_kind(e3.EV["RET"]):
+        rets[int(ev["op"][i])] = int(ev["val"][i])
+    for i in hist.of_kind(e3.EV["VAL"]):
+        o = prog.ops.get(int(ev["op"][i]))
+        if o is None or o.kind not in kinds or int(ev["idx"][i]) != 1:
+            continue
+        if o.c >= 2 and rets.get(o.id, 0) != 0:
+            elapsed = int(ev["val"][i])
+            if elapsed < o.d:
+                out.append(Verdict("%s (op %d) with a %d ns timeout on clock kind %d returned non-zero after only %d ns" % (o.kind, o.id, o.d, o.c, elapsed),
+                                   dict(kind="early-timeout", op_kind=o.kind, clock=o.c)))
+    return out
+
+
+def group_verdicts(prog, hist):
+    """C07: wait==0 / notify need an instant at which every certainly-completed enter is matched by a possibly-begun leave"""
+    ev = hist.ev
+    call, ret, start, end, starts, ends = hist.index()
+    out = []
+    K = e3.EV
+    for g in prog.groups:
+        enters_done, leaves_begun = [], []        # event positions
+        for i in range(hist.n):
+            k = int(ev["kind"][i])
+            o = prog.ops.get(int(ev["op"][i]))
+            if k == K["RET"] and o is not None and o.kind == "genter" and o.a == g:
+                enters_done.append(i)
+            elif k == K["RET"] and o is not None and o.kind == "gasync" and o.meta.get("group", o.c) == g:
+                enters_done.append(i)
+            elif k == K["CALL"] and o is not None and o.kind == "gleave" and o.a == g:
+                leaves_begun.append(i)
+            elif k == K["JCALL"] and int(ev["val"][i]) == 3 and o is not None and o.kind == "genter" and o.a == g:
+                leaves_begun.append(i)
+            elif k == K["END"] and o is not None and o.kind == "gasync" and o.meta.get("group", o.c) == g and int(ev["idx"][i]) < 0:
+                leaves_begun.append(i)
+        E = np.array(sorted(enters_done), dtype=np.int64)
+        L = np.array(sorted(leaves_begun), dtype=np.int64)
+
+        def certainly_nonempty_throughout(lo, hi):
+            # positions t in (lo, hi]: E(t) = #enters_done < t, L(t) = #leaves_begun < t
+            pts = sorted({lo + 1, hi} | {int(x) + 1 for x in E if lo < x + 1 <= hi} | {int(x) + 1 for x in L if lo < x + 1 <= hi})
+            for t in pts:
+                if np.searchsorted(E, t, side="left") - np.searchsorted(L, t, side="left") <= 0:
+                    return False
+            return True
+        for o in prog.order:
+            if o.kind == "gwait" and o.a == g and o.id in call and o.id in ret:
+                r = int(ev["val"][ret[o.id]])
+                if r == 0 and certainly_nonempty_throughout(call[o.id], ret[o.id]):
+                    out.append(Verdict("dispatch_group_wait (op %d) returned 0 although the group held unmatched enters during the whole call [events %d..%d]" %
+                                       (o.id, call[o.id], ret[o.id]), dict(kind="group-wait-early")))
+            if o.kind == "gnotify" and o.c == g and o.id in call:
+                n = len(starts.get(o.id, []))
+                if n > 1:
+                    out.append(Verdict("group notify block of op %d ran %d times" % (o.id, n), dict(kind="notify-twice")))
+                if n >= 1 and certainly_nonempty_throughout(call[o.id], start[o.id]):
+                    # was another wake-capable call on this group in flight when this notify was registered? (known finding C07-notify-fired-by-concurrent-wake)
+                    cn = call[o.id]
+                    conc = False
+                    for w in prog.order:
+                        if w is o or w.id not in call:
+                            continue
+                        if (w.kind == "gnotify" and w.c == g) or (w.kind == "gleave" and w.a == g):
+                            if call[w.id] < cn and ret.get(w.id, 1 << 60) > cn:
+                                conc = True
+                        elif w.kind == "gasync" and w.meta.get("group", w.c) == g and w.id in end and end[w.id] < cn:
+                            t = int(ev["tid"][end[w.id]])
+                            later = [i for i in range(end[w.id] + 1, cn) if int(ev["tid"][i]) == t]
+                            if not later:
+                                conc = True
+                    for i in range(hist.n):
+                        if int(ev["kind"][i]) == K["JCALL"] and int(ev["val"][i]) == 3 and i < cn:
+                            jr = [j for j in range(i + 1, hist.n) if int(ev["kind"][j]) == K["JRET"] and int(ev["idx"][j]) == int(ev["idx"][i])]
+                            if jr and jr[0] > cn:
+                                conc = True
+                    out.append(Verdict("group notify block of op %d started (event %d) although the group held unmatched enters ever since the notify call (event %d)%s" %
+                                       (o.id, start[o.id], call[o.id], " [another notify/leave on the group was in flight at the notify call]" if conc else ""),
+                                       dict(kind="notify-early", concurrent_waker=conc)))
+                if n == 0 and hist.hdr["finished"]:
+                    out.append(Verdict("group notify block of op %d never ran" % o.id, dict(kind="notify-never")))
+    return out
+
+
+def group_classes(prog, hist):
+    ev = hist.ev
+    K = e3.EV
+    res = {"zero_transitions": 0, "near": False}
+    for g in prog.groups:
+        c = 0
+        zeros = []
+        for i in range(hist.n):
+            k = int(ev["kind"][i])
+            o = prog.ops.get(int(ev["op"][i]))
+            if o is None:
+                continue
+            if k == K["CALL"] and ((o.kind == "genter" and o.a == g) or (o.kind == "gasync" and o.meta.get("group", o.c) == g)):
+                c += 1
+            elif (k == K["RET"] and o.kind == "gleave" and o.a == g) or (k == K["JRET"] and int(ev["val"][i]) == 3 and o.kind == "genter" and o.a == g) or \
+                    (k == K["END"] and o.kind == "gasync" and o.meta.get("group", o.c) == g and int(ev["idx"][i]) < 0):
+                c -= 1
+                if c == 0:
+                    zeros.append(i)
+        res["zero_transitions"] += len(zeros)
+        for i in range(hist.n):
+            o = prog.ops.get(int(ev["op"][i]))
+            if o is not None and int(ev["kind"][i]) == K["CALL"] and ((o.kind == "gwait" and o.a == g) or (o.kind == "gnotify" and o.c == g)):
+                if any(abs(z - i) <= 3 for z in zeros):
+                    res["near"] = True
+    return res
+
+
+def sem_verdicts(prog, hist):
+    """C08: permits are conserved"""
+    ev = hist.ev
+    K = e3.EV
+    out = []
+    for s, v in prog.sems.items():
+        succ, sigs = [], []
+        nsig_total = 0
+        for i in range(hist.n):
+            k = int(ev["kind"][i])
+            o = prog.ops.get(int(ev["op"][i]))
+            if k == K["RET"] and o is not None and o.kind == "swait" and o.a == s and int(ev["val"][i]) == 0:
+                succ.append(i)
+            elif k == K["CALL"] and o is not None and o.kind == "ssignal" and o.a == s:
+                sigs.append(i)
+            elif k == K["JCALL"] and int(ev["op"][i]) == -1 and int(ev["idx"][i]) == s and int(ev["val"][i]) == 20:
+                sigs.append(i)
+        sg = np.array(sorted(sigs), dtype=np.int64)
+        for n, pos in enumerate(sorted(succ), 1):
+            avail = v + int(np.searchsorted(sg, pos, side="left"))
+            if n > avail:
+                out.append(Verdict("semaphore %d (initial value %d): %d waits had returned 0 by event %d but only %d signals had even begun" % (s, v, n, pos, avail - v),
+                                   dict(kind="sem-spurious-success")))
+                break
+        if hist.hdr["finished"]:
+            for i in hist.of_kind(K["VAL"]):
+                if int(ev["op"][i]) == -1 and int(ev["idx"][i]) == 1000 + s:
+                    got = int(ev["val"][i])
+                    want = v + len(sigs) - len(succ)
+                    if got != want:
+                        out.append(Verdict("semaphore %d: after all calls finished %d permits were obtainable, expected %d = %d (initial) + %d signals - %d successful waits" %
+                                           (s, got, want, v, len(sigs), len(succ)), dict(kind="sem-permit-count", delta=got - want)))
+    return out
+
+
+def once_verdicts(prog, hist):
+    call, ret, start, end, starts, ends = hist.index()
+    out = []
+    bypred = {}
+    for o in prog.order:
+        if o.kind == "once":
+            bypred.setdefault(o.a, []).append(o)
+    for p, ops in bypred.items():
+        ran = [o for o in ops if o.id in start]
+        called = [o for o in ops if o.id in call]
+        if len(ran) > 1 or any(len(starts.get(o.id, [])) > 1 for o in ran):
+            out.append(Verdict("dispatch_once predicate %d: initialiser ran %d times (callers %s)" % (p, sum(len(starts.get(o.id, [])) for o in ran), [o.id for o in ran]),
+                               dict(kind="once-twice")))
+            continue
+        if called and not ran and all(o.id in ret for o in called):
+            out.append(Verdict("dispatch_once predicate %d: every caller returned but the initialiser never ran" % p, dict(kind="once-never")))
+            continue
+        if ran:
+            e_ = end.get(ran[0].id)
+            for o in called:
+                if o.id in ret and (e_ is None or ret[o.id] < e_):
+                    out.append(Verdict("dispatch_once predicate %d: caller op %d returned (event %d) before the initialiser finished (event %s)" % (p, o.id, ret[o.id], e_),
+                                       dict(kind="once-early-return")))
+                    break
+    return out
